@@ -19,6 +19,7 @@ import (
 // without any event handler is refused by stub.New).
 type lifePlugin struct {
 	failCfg atomic.Bool
+	cfgMask atomic.Int32 // what the Configure hook returns (0 = everything implemented; only event 1 is)
 	cfgs    atomic.Int32
 	syncs   atomic.Int32
 }
@@ -28,7 +29,7 @@ func (p *lifePlugin) Configure(ctx context.Context, config, rt, version string) 
 	if p.failCfg.Load() {
 		return 0, errors.New("scripted configuration failure")
 	}
-	return 0, nil
+	return api.EventMask(p.cfgMask.Load()), nil
 }
 
 func (p *lifePlugin) Synchronize(ctx context.Context, pods []*api.PodSandbox, ctrs []*api.Container) ([]*api.ContainerUpdate, error) {
@@ -94,6 +95,7 @@ func (r *rig) setBehaviour(b string) {
 	sc := healthyScript()
 	r.unreachable.Store(false)
 	r.pl.failCfg.Store(false)
+	r.pl.cfgMask.Store(0)
 	switch b {
 	case bUnreachable:
 		r.unreachable.Store(true)
